@@ -29,7 +29,10 @@ fn sources(lens: &[u64], bads: &[(u64, u64, u64)]) -> Result<Vec<TrainDataGenera
         let path = format!("{dir}/src-{k}-{n}{tag}.jsonl");
         // an entry (source, mode, 0): the file of that source does not end with a line feed (mode 0), or ends with a
         // blank instead of a line feed (mode 1)
-        let unterminated = bads.iter().find(|b| b.0 == k as u64 && b.2 == 0).map(|b| b.1);
+        let unterminated = bads.iter().find(|b| b.0 == k as u64 && b.2 == 0 && b.1 <= 1).map(|b| b.1);
+        // an entry (source, L, 0) with L >= 2: the middle line of that source carries an extra field of L bytes (a
+        // line longer than the reader's buffer, longer than any fixed limit)
+        let long = bads.iter().find(|b| b.0 == k as u64 && b.2 == 0 && b.1 >= 2).map(|b| b.1);
         if !std::path::Path::new(&path).exists() {
             let mut f = std::fs::File::create(&path).map_err(|e| e.to_string())?;
             for i in 0..n {
@@ -40,6 +43,8 @@ fn sources(lens: &[u64], bads: &[(u64, u64, u64)]) -> Result<Vec<TrainDataGenera
                         1 => format!("{{\"text\": \"bad {k}-{i}\"}}"),
                         _ => format!("[\"bad {k}-{i}\"]"),
                     }
+                } else if long.is_some() && i == n / 2 {
+                    format!("{{\"pad\": \"{}\", \"input\": \"{k}-{i}\"}}", "x".repeat(long.unwrap() as usize))
                 } else {
                     format!("{{\"input\": \"{k}-{i}\"}}")
                 };
@@ -80,11 +85,12 @@ fn drain(lens: &[u64], bads: &[(u64, u64, u64)], s: GenerationStrategy, seed: u6
             Err(e) => {
                 let m = format!("{e:#}");
                 // "bad <src>-<i>", or a JSON line that lost its last byte (a file without a final line feed)
-                let line = m.split("bad ").nth(1).or_else(|| m.split("\"input\": \"").nth(1)).ok_or(format!("unexpected error item: {m}"))?;
+                // (an error item that is no line of any source is kept, with an impossible index: the oracle reports it)
+                let line = m.split("bad ").nth(1).or_else(|| m.split("\"input\": \"").nth(1)).unwrap_or("?-18446744073709551615");
                 (line.split(|c: char| c == ':' || c == '"' || c.is_whitespace()).next().unwrap_or("").to_string(), true)
             }
         };
-        let k: u64 = input.split('-').nth(1).and_then(|x| x.parse().ok()).ok_or("bad item")?;
+        let k: u64 = input.split('-').nth(1).and_then(|x| x.parse().ok()).unwrap_or(u64::MAX);
         out.push((k, src as u64, input, is_err));
         if out.len() as u64 > total + 5 {
             break;
@@ -271,6 +277,15 @@ pub fn run_c07(ctx: &mut Ctx) {
         if ctx.thorough {
             emit(ctx, 1, &[66000, 1], 0);
             emit(ctx, 0, &[1, 66000], 0);
+        }
+    }
+    if ctx.first_shard() {
+        // very long lines: longer than the line reader's buffer (8 KiB), 1 MiB, 17 MiB
+        let longs: &[u64] = if ctx.thorough { &[9000, 70_000, 1 << 20, 17 << 20, 33 << 20] } else { &[9000, 17 << 20] };
+        for &l in longs {
+            for s in 0..3 {
+                emit_b(ctx, s, &[3, 2], 5, &[(0, l, 0)]);
+            }
         }
     }
     if ctx.thorough && ctx.first_shard() {
